@@ -1,10 +1,10 @@
 """C01: inbound stream integrity under any segmentation and consumption pattern."""
 import tops
-from reactor import Reactor, ReactorOpt
+from reactor import components
 
 
 def main(tier, replay):
-    return tops.run("C01", [Reactor(), ReactorOpt()], tier,
+    return tops.run("C01", components(["stream", "udp", "fault"]), tier,
                     level_text="reactor model (Props/C01.lean) + trace acceptance on a real event loop",
                     assumptions=["Linux stream sockets deliver bytes in order; epoll semantics"],
                     replay=replay)
